@@ -77,10 +77,15 @@ def check_string(ureg, R, s, *, deep=False, fraction_reg=None):
         if not isinstance(name, pint.UndefinedUnitError):
             raise Violation(f"wrong_exception_for_unknown:{exc_class(name)}", f"get_name({s!r}) raised {type(name).__name__}: {name}")
         s2, v2 = attempt(ureg.parse_units, s)
-        if s2 == "ok" or not isinstance(v2, pint.UndefinedUnitError):
+        # (parse_units goes through the expression parser, which reads nan / inf in any case as numbers: "a unit expression
+        # cannot have a scaling factor" is then the rejection)
+        if s2 == "ok" or not (isinstance(v2, pint.UndefinedUnitError) or (s.lower() in ("nan", "inf") and isinstance(v2, ValueError))):
             raise Violation("parse_units_accepts_unknown", f"parse_units({s!r}) -> {v2!r}")
-        if s in ureg:
+        s3, v3 = attempt(lambda: s in ureg)
+        if s3 == "ok" and v3:
             raise Violation("contains_accepts_unknown", f"{s!r} in ureg")
+        if s3 == "err" and not (s.lower() in ("nan", "inf") and isinstance(v3, ValueError)):
+            raise Violation(f"contains_raised:{exc_class(v3)}", f"{s!r} in ureg raised {v3!r}")
         return "none"
     if exp[0] == "exact":
         c = exp[1]
